@@ -2224,6 +2224,53 @@ fn run_extreme(c: &ExtremeCase) -> Option<String> {
         Ok(b) => b,
         Err(p) => return Some(format!("building the queue panicked: {p}")),
     };
+    if c.n > 32 {
+        // backlog mode (short interval): the writer is held inside its periodic stream flush, i.e. after its
+        // last main-loop drain pass; the whole backlog is still queued when the shutdown begins, so the
+        // final drain of `shut_down` has to write more than 32 entries (its clock check must not cut it)
+        gate.set_fclosed(true);
+        if !wait_until(|| gate.lock().fblocked == 1, Duration::from_secs(20)) {
+            gate.open();
+            return Some("the writer did not reach its periodic stream flush within 20 s".into());
+        }
+        for i in 0..c.n {
+            handle.append(IdEntry { id: i as u64, res: Res::Ok });
+        }
+        let mut what = None;
+        if c.forget {
+            join.forget();
+            drop(handle);
+            gate.open();
+            if !wait_until(|| gate.lock().closed, Duration::from_secs(30)) {
+                what = Some("join handle forgotten and the last queue handle dropped, but the stream was not dropped within 30 s".to_string());
+            }
+        } else {
+            let mut d = JoinDropper::start(join, Duration::from_secs(30));
+            gate.open();
+            if !d.finish(Duration::from_secs(30)) {
+                what = Some("drop(join_handle) did not return within 30 s although the stream accepts everything".to_string());
+            } else if d.panicked.load(Ordering::SeqCst) {
+                what = Some("drop(join_handle) panicked".to_string());
+            }
+            drop(handle);
+        }
+        let g = gate.lock();
+        let written: Vec<u64> = g.calls.iter().filter_map(|c| if let Call::Next(id, _) = c { Some(*id) } else { None }).collect();
+        let want: Vec<u64> = (0..c.n as u64).collect();
+        if what.is_none() {
+            if !g.closed {
+                what = Some("the shutdown completed but the stream was not dropped".into());
+            } else if written != want {
+                what = Some(format!(
+                    "only {} of the {} entries appended before the shutdown began were written (shutdown_timeout {}): the rest was dropped silently",
+                    written.len(), c.n, c.timeout.name()
+                ));
+            } else if g.calls.last() != Some(&Call::Flush) {
+                what = Some("the stream was dropped without a final flush after the last entry".into());
+            }
+        }
+        return what;
+    }
     // the writer takes the first entry and is held inside `next`; the others wait in the ring (no overflow)
     handle.append(IdEntry { id: 0, res: Res::Ok });
     if !wait_until(|| gate.lock().entered == 1, Duration::from_secs(20)) {
@@ -2291,6 +2338,19 @@ fn extremes_stage(args: &Args, rep: &mut Report, rng: &mut Rng) {
                                 cases.push(ExtremeCase { kind, cap, interval_ns, timeout, recorder, named, slow_us, forget: true, n });
                             }
                         }
+                    }
+                }
+            }
+        }
+    }
+    if args.replay_case().is_none() {
+        // backlogs of more than 32 entries still queued when the shutdown begins (timeouts that must never cut
+        // the final drain; 1 ns legitimately may)
+        for kind in [Kind::Typed, Kind::Boxed] {
+            for timeout in [Timeout::Max, Timeout::HalfMax, Timeout::Default30s] {
+                for n in [33usize, 64, 200] {
+                    for forget in [false, true] {
+                        cases.push(ExtremeCase { kind, cap: 65_536, interval_ns: 1_000, timeout, recorder: n == 64, named: n == 200, slow_us: 0, forget, n });
                     }
                 }
             }
